@@ -131,6 +131,18 @@ def run_session(s):
     return out
 
 
+def cov_hits():
+    """the line-coverage table of tools/harness/_covwrap.py when this script runs under it (else None): a forked child
+    hands the lines it executed back to the parent, which is the process whose table is written out"""
+    f = sys._getframe()
+    while f is not None:
+        g = f.f_globals
+        if isinstance(g.get('hits'), dict) and 'mon' in g and str(g.get('__file__', '')).endswith('_covwrap.py'):
+            return g['hits']
+        f = f.f_back
+    return None
+
+
 def run_forked(s):
     r, w = os.pipe()
     pid = os.fork()
@@ -141,6 +153,9 @@ def run_forked(s):
             try:
                 res = run_session(s)
                 res['forked'] = True
+                h = cov_hits()
+                if h is not None:
+                    res['cov'] = {k: sorted(v) for k, v in h.items()}
             except BaseException as ex:
                 res = {'id': s['id'], 'crash': f'{type(ex).__name__}: {ex}'}
             data = json.dumps(res).encode()
@@ -161,9 +176,14 @@ def run_forked(s):
     os.close(r)
     os.waitpid(pid, 0)
     try:
-        return json.loads(b''.join(chunks).decode())
+        res = json.loads(b''.join(chunks).decode())
     except Exception:
         return {'id': s['id'], 'crash': 'child returned no result'}
+    h = cov_hits()
+    for k, lines in (res.pop('cov', None) or {}).items():
+        if h is not None:
+            h.setdefault(k, set()).update(lines)
+    return res
 
 
 def main():
